@@ -157,6 +157,12 @@ class C09Monitor(Monitor):
                         if thr > 0:
                             out = NBC_FarEnough(2.0, ord_, only_active)({p: DemeCandidates(list(inds), DemeFeatures(nbc_mean_distance=thr / 2.0))}, tree)
                             self.compare(out[p].individuals, inds, exp, f"NBC_FarEnough(2.0, ord={ord_}, only_active={only_active}) mean={thr / 2.0!r}", sid, thr == base)
+                    # an undefined threshold (mean of no nearest-better distances is NaN when truncation keeps one individual):
+                    # nothing is 'strictly farther than NaN' from a deme the filter considers
+                    inds = [Individual(np.array(g, copy=True), problem, float(k)) for k, g in enumerate(cands)]
+                    out = NBC_FarEnough(2.0, ord_, only_active)({p: DemeCandidates(list(inds), DemeFeatures(nbc_mean_distance=float("nan")))}, tree)
+                    self.compare(out[p].individuals, inds, [False] * len(inds), f"NBC_FarEnough(2.0, ord={ord_}, only_active={only_active}) mean=nan", sid, False)
+                    x.flag("undefined (NaN) threshold case")
 
     def compare(self, kept, inds, exp, what, sid, exact):
         x = self.x
@@ -212,6 +218,10 @@ def units(tier, seed):
             for obj in ("twofunnel", "plateau"):
                 descs.append(dict(engines=list(eng), gens=1, Mh=5, seed=s + k3, sprout={"kind": "nbc", "L": 3, "gen": gen_f, "fil": fil_f, "trunc": 0.8}, obj=obj,
                                   lsc=[None] + [{"kind": "metaepoch", "m": 3}] * (len(eng) - 1), pop=10))
+    # parents with two individuals: truncation keeps one, the mean nearest-better distance is undefined
+    for k4, eng in enumerate([("SEA", "SEA", "SHADE"), ("DE", "SEAX", "CMAf"), ("SEA", "GA")]):
+        descs.append(dict(engines=list(eng), gens=1, Mh=6, seed=s + k4, sprout={"kind": "nbc", "L": 3}, obj="twofunnel", pop=2 if eng[0] != "DE" else 6,
+                          lsc=[None] * len(eng)))
     return [{"kind": "run", "descs": c} for c in chunks(descs, 8)]
 
 
